@@ -92,6 +92,8 @@ pub fn class_menu() -> Vec<&'static str> {
         "\\pN", "\\PN", "[[:alpha:]]", "[[:^alpha:]]", "[^[:alpha:]]", "[[:digit:]]", "[\\pL]", "[^\\pL]", "[\\PL]", "[a-c--b]", "[a-c&&b]", "[a-c~~b]",
         // literals that agree with `a` in their low 7 / 8 / 16 bits (U+00E1, U+0161, U+10061)
         "á", "š", "\\x{10061}",
+        // a negated bracket around each set operation
+        "[^a-c--b]", "[^a-c&&b]", "[^a-c~~b]",
     ]
 }
 
